@@ -46,3 +46,55 @@ package markdown
 //@   loop#1 decreases len(cells) - i
 //@   loop#2 invariant len(cells) <= i && i <= columnCount && !Wfailed && mdPipes == 1 + i
 //@   loop#2 decreases columnCount - i
+
+//@ globalinv propWidth != nil @C14
+
+//@ -- alignOK(t): values stored under the alignment key of any column are alignment values (N5)
+//@ pred alignOK(t *tabular.ATable) = forall i int :: {t.columns[i]} 0 <= i && i < len(t.columns) ==> (lookup(heap[tabular.valueProperty.chain], heap[tabular.valueProperty.key], heap[tabular.valueProperty.val], t.columns[i].properties, mkiface(type[*align.propertyKey], box(align.PropertyType))) == nil || impl(dyn(lookup(heap[tabular.valueProperty.chain], heap[tabular.valueProperty.key], heap[tabular.valueProperty.val], t.columns[i].properties, mkiface(type[*align.propertyKey], box(align.PropertyType)))), align.Alignment))
+
+//@ func CellPropertyExtractWidth
+//@   tags C08,C09
+//@   requires cell != nil && chainOK(heap[tabular.valueProperty.chain], heap[tabular.valueProperty.key], heap[tabular.valueProperty.val], cell.properties)
+//@   assigns nothing
+//@   ensures true
+
+//@ func (widthSetter).UpdateProperties
+//@   params ws, po
+//@   tags C14,C09
+//@   requires ownerOK(po) && (dyn(po) == type[*tabular.Cell] ==> !po.(*tabular.Cell).mustCalc)
+//@   assigns loc(tabular.propertyImpl.properties, propsCell(po)), new(tabular.valueProperty)
+//@   ensures [cells-only] (result == nil) <==> dyn(po) == type[*tabular.Cell]
+//@   ensures [chain-kept] ownerOK(po) && chainsStable(old(heap[tabular.valueProperty.chain]), old(heap[tabular.valueProperty.key]), old(heap[tabular.valueProperty.val]), heap[tabular.valueProperty.chain], heap[tabular.valueProperty.key], heap[tabular.valueProperty.val], old(alloc))
+//@   ensures [only-the-private-key-changes] dyn(po) == type[*tabular.Cell] ==> forall k Iface :: {lookup(heap[tabular.valueProperty.chain], heap[tabular.valueProperty.key], heap[tabular.valueProperty.val], po.(*tabular.Cell).properties, k)} k != mkiface(type[*propertyKey], box(propWidth)) ==> lookup(heap[tabular.valueProperty.chain], heap[tabular.valueProperty.key], heap[tabular.valueProperty.val], po.(*tabular.Cell).properties, k) == lookup(old(heap[tabular.valueProperty.chain]), old(heap[tabular.valueProperty.key]), old(heap[tabular.valueProperty.val]), old(po.(*tabular.Cell).properties), k) @C14
+
+//@ func Wrap
+//@   tags C10,C09
+//@   requires tbl(t)
+//@   assigns new(MarkdownTable), heap[tabular.callbackSet.renderTime], heap[[]tabular.PropertyCallback]
+//@   ensures result != nil && fresh(result) && result.Table === t
+//@   ensures [measuring-callback-registered] len(t.(*tabular.ATable).tableCellCallbacks.renderTime) == old(len(t.(*tabular.ATable).tableCellCallbacks.renderTime)) + 1 && dyn(t.(*tabular.ATable).tableCellCallbacks.renderTime[len(t.(*tabular.ATable).tableCellCallbacks.renderTime) - 1]) == type[widthSetter] @C10
+
+//@ func (*MarkdownTable).RenderTo
+//@   tags C08,C15,C09,C14
+//@   requires mt != nil && tbl(mt.Table) && alignOK(mtab(mt)) && mtab(mt).nColumns <= 1099511627774
+//@   requires [writer-ok] !Wfailed
+//@   ensures [table-still-wellformed] tbl(mt.Table) @C09,C14
+//@   ensures [no-columns-refused] mtab(mt).nColumns < 1 ==> result != nil && Wn == old(Wn) @C08
+//@   ensures [no-headers-refused] mtab(mt).headerRow == nil ==> result != nil && Wn == old(Wn) @C08
+//@   ensures [failing-writer-surfaces] Wfailed ==> result != nil @C15
+//@   ensures [header-delimiter-and-one-line-per-row] result == nil ==> mdLineN == old(mdLineN) + 2 + nonsep(heap[[]*tabular.Row], heap[tabular.Row.isSeparator], mtab(mt).rows, len(mtab(mt).rows)) @C08
+//@   ensures [every-line-one-more-pipe-than-columns] result == nil ==> forall r int :: {mdLinePipes[r]} old(mdLineN) <= r && r < mdLineN ==> mdLinePipes[r] == mtab(mt).nColumns + 1 @C08
+//@   loop#1 invariant -1 <= rangeindex && rangeindex < len(headers) && tbl(mt.Table) && alignOK(mtab(mt)) && !Wfailed && Wn == old(Wn) && mdLineN == old(mdLineN) && mdLinePipes === old(mdLinePipes) && len(widths) == columnCount && columnCount == mtab(mt).nColumns && columnCount >= 1 && mtab(mt).headerRow != nil && headers === mtab(mt).headerRow.cells && len(headers) <= columnCount
+//@   loop#1 decreases len(headers) - rangeindex
+//@   loop#2 invariant -1 <= rangeindex && rangeindex < len(mtab(mt).rows) && tbl(mt.Table) && alignOK(mtab(mt)) && !Wfailed && Wn == old(Wn) && mdLineN == old(mdLineN) && mdLinePipes === old(mdLinePipes) && len(widths) == columnCount && columnCount == mtab(mt).nColumns && columnCount >= 1 && mtab(mt).headerRow != nil && headers === mtab(mt).headerRow.cells && len(headers) <= columnCount
+//@   loop#2 decreases len(mtab(mt).rows) - rangeindex
+//@   loop#3 invariant -1 <= rangeindex && rangeindex < len(cells) && len(cells) <= columnCount && 0 <= n && n < len(mtab(mt).rows) && cells === mtab(mt).rows[n].cells && !mtab(mt).rows[n].isSeparator && tbl(mt.Table) && alignOK(mtab(mt)) && !Wfailed && Wn == old(Wn) && mdLineN == old(mdLineN) && mdLinePipes === old(mdLinePipes) && len(widths) == columnCount && columnCount == mtab(mt).nColumns && columnCount >= 1 && mtab(mt).headerRow != nil && headers === mtab(mt).headerRow.cells && len(headers) <= columnCount
+//@   loop#3 decreases len(cells) - rangeindex
+//@   loop#4 invariant 0 <= i && i <= columnCount && len(controlRowCells) == i && fresh(controlRowCells) && cap(controlRowCells) == columnCount && len(alignments) == columnCount && mdCellsFresh(controlRowCells) && tbl(mt.Table) && alignOK(mtab(mt)) && !Wfailed && Wn == old(Wn) && mdLineN == old(mdLineN) && mdLinePipes === old(mdLinePipes) && len(widths) == columnCount && columnCount == mtab(mt).nColumns && columnCount >= 1 && mtab(mt).headerRow != nil && headers === mtab(mt).headerRow.cells && len(headers) <= columnCount
+//@   loop#4 decreases columnCount - i
+//@   loop#5 invariant -1 <= rangeindex && rangeindex < len(mtab(mt).rows) && tbl(mt.Table) && !Wfailed && len(widths) == columnCount && len(alignments) == columnCount && columnCount == mtab(mt).nColumns && columnCount >= 1 && mtab(mt).headerRow != nil
+//@   loop#5 invariant mdLineN == old(mdLineN) + 2 + nonsep(heap[[]*tabular.Row], heap[tabular.Row.isSeparator], mtab(mt).rows, rangeindex + 1)
+//@   loop#5 invariant forall r int :: {mdLinePipes[r]} old(mdLineN) <= r && r < mdLineN ==> mdLinePipes[r] == mtab(mt).nColumns + 1
+//@   loop#5 decreases len(mtab(mt).rows) - rangeindex
+//@   loop#5 unfold nonsep(heap[[]*tabular.Row], heap[tabular.Row.isSeparator], mtab(mt).rows, rangeindex + 2)
+//@   entry unfold nonsep(heap[[]*tabular.Row], heap[tabular.Row.isSeparator], mtab(mt).rows, 0)
